@@ -345,7 +345,68 @@ def run_fuzz(ctx: Ctx, runner: Any, part: Part) -> None:
     del lab_data
 
 
+def check_late_class(data: dict, lab: Labels) -> None:
+    """class names are resolved when a text is compiled: a name that was unknown at an earlier
+    compilation (and rightly rejected) must be accepted once the class exists. (Re-defining a class
+    under the same name is not exercised: the pattern cache then legitimately returns the matcher
+    bound to the first class object - outside the property's quantifier, see DESIGN.md 10.3.)"""
+    import sys
+    import types
+
+    import pyoak.serialize as S
+    from pyoak.match.pattern import NodeMatcher, validate_pattern
+    from pyoak.match.xpath import ASTXpath
+
+    name = f"LateCls{data['k'] % 5}"
+    S.TYPES.pop(name, None)
+    texts = {"xpath": [f"//{name}", f"/Mixed/@items[0]{name}"], "pattern": [f"({name})", f"(Mixed @items=[({name} @v -> val) *])"]}
+    if data["probe_first"]:
+        for t in texts["xpath"]:
+            require(compile_xpath(t) is None, "unknown-class-accepted", t)
+        for t in texts["pattern"]:
+            ok, _ = compile_pattern(t)
+            require(not ok, "unknown-class-accepted", t)
+        lab.tag("rejected-before-definition")
+    mod_name = "pbt_late_mod"
+    for generation in range(data["generations"]):
+        mod = types.ModuleType(mod_name)
+        mod.__file__ = f"<{mod_name}>"
+        sys.modules[mod_name] = mod
+        src = ("from dataclasses import dataclass\nfrom pyoak.node import ASTNode\n"
+               f"@dataclass(frozen=True)\nclass {name}(ASTNode):\n    v: int = 0\n")
+        exec(compile(src, mod.__file__, "exec", dont_inherit=True), mod.__dict__)
+        cls = mod.__dict__[name]
+        inst = cls(v=generation)
+        tree = M.cls("Mixed")(items=(inst, M.cls("LeafA")(v=1)))
+        for t in texts["xpath"]:
+            x = compile_xpath(t)
+            require(x is not None, "existing-class-rejected", f"generation {generation}: {t}")
+            found = list(x.findall(tree))
+            require(len(found) == 1 and found[0] is inst, "xpath-bound-to-stale-class", f"generation {generation}: {t} found {found!r:.100}")
+            require(x.match(tree, inst) is True, "xpath-bound-to-stale-class", f"generation {generation}: match {t}")
+        ok, m = compile_pattern(texts["pattern"][0])
+        require(ok and m.match(inst)[0] is True, "pattern-bound-to-stale-class", f"generation {generation}: {texts['pattern'][0]}")
+        ok, m = compile_pattern(texts["pattern"][1])
+        res = m.match(tree) if ok else (False, {})
+        require(ok and res[0] is True and res[1].get("val") == generation, "pattern-bound-to-stale-class",
+                f"generation {generation}: {texts['pattern'][1]} -> {res!r:.100}")
+        require(validate_pattern(texts["pattern"][0])[0] is True, "existing-class-rejected", texts["pattern"][0])
+        lab.tag(f"generation{generation}")
+        del NodeMatcher, ASTXpath
+        from pyoak.match.pattern import NodeMatcher  # noqa: F401
+        from pyoak.match.xpath import ASTXpath  # noqa: F401
+    S.TYPES.pop(name, None)
+    sys.modules.pop(mod_name, None)
+    lab.nontrivial = True
+    lab.sample_class = "late-class"
+
+
+def st_late(ctx: Ctx):
+    return st.fixed_dictionaries({"k": st.integers(0, 4), "probe_first": st.booleans(), "generations": st.just(1)})
+
+
 PARTS = [
     Part("texts", check_text, strategy=st_texts, quick=12000, thorough=320000),
+    Part("late_class", check_late_class, strategy=st_late, quick=160, thorough=1600),
     Part("fuzz", check_text, custom=run_fuzz),
 ]
